@@ -13,7 +13,8 @@ static pthread_barrier_t bar;
 static void *thread_main(void *p) {
   targ_t *t = (targ_t *)p;
   vh_ctx_new(t->path, t->a.seed, t->tid);
-  vh_raw("{\"e\":\"cfg\",\"name\":\"%s\",\"thread\":%d}", VH_CFG, t->tid);
+  vh_raw("{\"e\":\"cfg\",\"name\":\"%s\",\"thread\":%d,\"l1\":%d,\"l2\":%d,\"l3\":%d,\"mul_blocksize\":%d,\"strassen_cutoff\":%d,\"ple_cutoff\":%d}", VH_CFG, t->tid,
+         __M4RI_CPU_L1_CACHE, __M4RI_CPU_L2_CACHE, __M4RI_CPU_L3_CACHE, (int)__M4RI_MUL_BLOCKSIZE, (int)__M4RI_STRASSEN_MUL_CUTOFF, (int)__M4RI_PLE_CUTOFF);
   static const char *fams[] = {"mul", "elim", "ple", "solve", "move", "trsm", "inv", "kernel", "rowops", "obs"};
   static const int counts[] = {40, 24, 24, 24, 40, 16, 12, 12, 30, 30};
   pthread_barrier_wait(&bar);
